@@ -316,6 +316,16 @@ func c17ForwarderPublisher(c *Check) {
 	}
 	pubOK, pubFail := NilEdges(fn, ResultOfAny(pubs, 0))
 	relayReturns(c, P, fn, pubOK, pubFail, "nil is returned only after the wrapped publisher accepted the envelopes")
+	{
+		var srcs []ErrSource
+		for _, w := range wraps {
+			srcs = append(srcs, ErrSource{w, 1})
+		}
+		for _, pb := range pubs {
+			srcs = append(srcs, ErrSource{pb, 0})
+		}
+		ErrorsOnlyFrom(c, P+".O2", "FORWARDER-PUBLISH-FAILS-ONLY-ON-FAULT", fn, srcs, nil, "the forwarder's publisher fails only when a message cannot be wrapped or the wrapped publisher failed")
+	}
 }
 
 // isElemOfParam: v is an element read from slice parameter p (range or index).
@@ -401,6 +411,17 @@ func c17Requeuer(c *Check) {
 	pubOK, pubFail := NilEdges(fn, ResultOfAny(pubs, 0))
 	c.Floor(P+".O1", "test `publish error == nil` in the requeuer (or the Publish result returned as it is)", len(pubOK)+tailReturns(fn, ResultOfAny(pubs, 0)), 1)
 	relayReturns(c, P, fn, pubOK, pubFail, "nil (⇒ Ack) is returned only after the destination accepted the message")
+	ErrorsOnlyFromKinds(c, P+".O1", "REQUEUE-FAILS-ONLY-ON-FAULT", fn, func(cl ssa.CallInstruction) (int, bool) {
+		switch {
+		case IsCallTo(cl, nPublish):
+			return 0, true
+		case cl.Common().IsInvoke() && cl.Common().Method.Name() == "Err" && cl.Common().Value.Type().String() == "context.Context":
+			return 0, true // the consumed message's context ended while waiting for the delay
+		case !cl.Common().IsInvoke() && CalleeFn(cl.Common()) == nil && AllOrigins(cl.Common().Value, exportedFieldLoad("GeneratePublishTopic")):
+			return 1, true
+		}
+		return 0, false
+	}, nil, "the requeuer refuses a message (⇒ Nack) only when its context ended, the topic generator failed or the destination Publish failed")
 	// topic generator
 	var gens []ssa.CallInstruction
 	for _, cl := range CallsIn(fn) {
